@@ -708,6 +708,36 @@ func c15(c *fw.Ctx) {
 		}
 		c.Exhaustive("ECI numbers 0..999999 in every designator form")
 	}
+	// designators whose first byte fits none of the three forms (111xxxxx): not an ECI number at all
+	c.Run("eci-invalid-lead-byte", func(r *fw.Rec) {
+		for lead := 0xE0; lead <= 0xFF; lead++ {
+			for _, v := range []int{3, 9, 20, 26, 899, 0} {
+				var w bitw
+				w.put(0x7, 4)
+				w.put(lead, 8)
+				w.put(v>>8, 8)
+				w.put(v&0xFF, 8)
+				w.put(0x4, 4)
+				w.put(2, 8)
+				w.put('A', 8)
+				w.put('z', 8)
+				w.put(0, 4)
+				res, err := qrdec.DecodedBitStreamParser_Decode(w.b, v1, qrdec.ErrorCorrectionLevel_L, nil)
+				r.Evals(1)
+				if err == nil {
+					r.Violation("model-mismatch", "qr.parser:eci-invalid-lead-byte-accepted", fmt.Sprintf("ECI designator starting with byte %#02x (none of the forms 0xxxxxxx, 10xxxxxx, 110xxxxx) followed by %02x %02x was accepted; text %q", lead, v>>8, v&0xFF, res.GetText()), map[string]interface{}{"lead_byte": lead, "low_bits_value": v})
+					return
+				}
+				if _, isFmt := err.(gozxing.FormatException); !isFmt {
+					r.Violation("model-mismatch", "qr.parser:eci-invalid-lead-byte-error-kind", fmt.Sprintf("ECI designator starting with byte %#02x: error %T %v is not a format error", lead, err, err), map[string]interface{}{"lead_byte": lead})
+					return
+				}
+				r.Tally("eci_invalid_lead_bytes_refused")
+			}
+		}
+		r.Nontrivial("eci-invalid-lead-byte")
+	})
+	c.Floor("eci_invalid_lead_bytes_refused", 192)
 	// one designator, several byte segments: a designator stays in effect until the next one
 	// (other segments in between do not end it)
 	c.Run("eci-several-segments", func(r *fw.Rec) {
